@@ -11,7 +11,7 @@ use std::io::{stderr, Write};
 use std::path::Path;
 use std::time::SystemTime;
 
-use chrono::{format::StrftimeItems, DateTime, Local};
+use chrono::{format::StrftimeItems, Local};
 
 use super::{FileType, Matcher, MatcherIO, WalkEntry, WalkError};
 
@@ -48,16 +48,19 @@ impl TimeFormat {
             Self::Ctime => {
                 const CTIME_FORMAT: &str = "%a %b %d %H:%M:%S.%f0 %Y";
 
-                DateTime::<Local>::from(time)
-                    .format(CTIME_FORMAT)
-                    .to_string()
+                match super::time::to_datetime(time) {
+                    Some(utc) => utc.with_timezone(&Local).format(CTIME_FORMAT).to_string(),
+                    // Outside the calendar's range: the seconds since the epoch.
+                    None => super::time::seconds_since_epoch(time).0.to_string(),
+                }
             }
             Self::Strftime(format) => {
                 // Handle a special case
                 let custom_format = format.replace("%+", "%Y-%m-%d+%H:%M:%S%.f0");
-                DateTime::<Local>::from(time)
-                    .format(&custom_format)
-                    .to_string()
+                match super::time::to_datetime(time) {
+                    Some(utc) => utc.with_timezone(&Local).format(&custom_format).to_string(),
+                    None => super::time::seconds_since_epoch(time).0.to_string(),
+                }
             }
         };
 
